@@ -618,3 +618,69 @@ func principalResult(callee *ssa.Function, i int) (ssa.Value, bool) {
 	}
 	return principal, n == 1
 }
+
+// overwrittenUnless: a store into a field that a later store of the same iteration may overwrite (`x.f = default` followed
+// by `if c { x.f = other }`) is the field's final value only when that later store does not run. For a later store with
+// exactly one guard beyond the first store's own, the negated guard is returned; nil when nothing overwrites the store,
+// ok=false when the overwriting is more involved than that.
+func overwrittenUnless(st *ssa.Store, l lval) ([]gcond, bool) {
+	fa, ok := st.Addr.(*ssa.FieldAddr)
+	if !ok {
+		return nil, true
+	}
+	fn := st.Parent()
+	own := guardsOf(st.Block(), l)
+	has := func(gs []gcond, g gcond) bool {
+		for _, o := range gs {
+			if o.cond.v == g.cond.v && o.want == g.want {
+				return true
+			}
+		}
+		return false
+	}
+	loop := innermostLoop(st.Block())
+	var out []gcond
+	okAll := true
+	allInstrs(fn, func(in ssa.Instruction) {
+		s2, isSt := in.(*ssa.Store)
+		if !isSt || s2 == st {
+			return
+		}
+		fb, isF := s2.Addr.(*ssa.FieldAddr)
+		if !isF || fb.Field != fa.Field || !(fb.X == fa.X || sameFieldValue(fb.X, fa.X)) {
+			return
+		}
+		// later in the same iteration: the first store's block strictly dominates the second's and both sit in the same loop
+		if s2.Block() == st.Block() {
+			after := false
+			for _, i2 := range st.Block().Instrs {
+				if i2 == ssa.Instruction(st) {
+					after = true
+				}
+				if i2 == ssa.Instruction(s2) && after {
+					okAll = false // overwritten unconditionally: the first store is dead
+				}
+			}
+			return
+		}
+		if !st.Block().Dominates(s2.Block()) {
+			return
+		}
+		if l2 := innermostLoop(s2.Block()); len(l2) != len(loop) || (loop != nil && !loop[s2.Block()]) {
+			okAll = false
+			return
+		}
+		var extra []gcond
+		for _, g := range guardsOf(s2.Block(), l) {
+			if !has(own, g) {
+				extra = append(extra, g)
+			}
+		}
+		if len(extra) != 1 {
+			okAll = false
+			return
+		}
+		out = append(out, gcond{extra[0].cond, !extra[0].want})
+	})
+	return out, okAll
+}
